@@ -751,10 +751,11 @@ class Prop:
     props_file = 'Props/C14.v'
     required_theorems = ['eval_code_eq_spec', 'eval_spec_is_functional', 'aspath_regex_ignored_pre_fix_refuted',
                          'eval_never_panics_api', 'eval_never_panics_wire', 'crud_preserves_references',
-                         'crud_referenced_frozen', 'wire_aspath_decoded', 'wire_aspath_rendered', 'api_built_assignments_wf',
+                         'crud_referenced_frozen', 'global_preserves_references', 'global_referenced_frozen', 'wire_aspath_decoded', 'wire_aspath_rendered', 'api_built_assignments_wf',
                          'prefix_set_longest_match_refuted', 'aspath_patterns_refuted', 'arithmetic_and_api_refuted']
     correspondence_name = ('Model/Policy.v eval_code + Model/PolicyTable.v crud_step vs table/src/policy.rs PolicyTable / '
-                           'apply_import / apply_export (harness/hx-policy)')
+                           'apply_import / apply_export (harness/hx-policy); Model/PolicyGlobal.v gstep vs daemon/src/event/mod.rs Global '
+                           '(harness/daemon/event_policy_hx.rs)')
     rule = ('case = a sequence of PolicyTable API calls (add/replace/delete of defined sets, statements, policies, assignments) '
             'interleaved with apply_import/apply_export evaluations and a table dump; a case is non-trivial when some evaluation '
             'ran under an assignment with at least one statement; distinct = distinct (sequence of result codes, evaluation '
